@@ -368,7 +368,18 @@ func ruleC05R6(r *Run) {
 			continue
 		}
 		found := false
+		// errgroup members: the closures of run, and named methods a closure merely forwards to
+		members := append([]*ssa.Function{}, run.AnonFuncs...)
 		for _, cl := range run.AnonFuncs {
+			allInstrs(cl, func(ins ssa.Instruction) {
+				if c, ok := ins.(*ssa.Call); ok {
+					if cf := c.Call.StaticCallee(); cf != nil && p.Analysed(cf) && recvTypeName(cf) == typ && len(p.staticCallSites(cf)) == 1 {
+						members = append(members, cf)
+					}
+				}
+			})
+		}
+		for _, cl := range members {
 			// the watcher: calls IsWithoutLock(connStatusReconnecting) and a Cond.Wait
 			watches := false
 			allInstrs(cl, func(ins ssa.Instruction) {
